@@ -738,10 +738,10 @@ func (w *world) checkOp(oi int, entry, opctx, loc string, log []event, limitHit 
 
 func TestCheck(t *testing.T) {
 	vcommon.Main(t, "C20",
-		vcommon.S("rfs", 12000, 600000, genCase("rfs"), checkCase),
+		vcommon.S("rfs", 9600, 480000, genCase("rfs"), checkCase),
 		vcommon.S("osroot", 4000, 200000, genCase("osroot"), checkCase),
-		vcommon.S("cli", 1600, 60000, genCase("cli"), checkCase),
-		vcommon.S("mapfs", 8000, 400000, genCase("mapfs"), checkCase),
+		vcommon.S("cli", 1280, 48000, genCase("cli"), checkCase),
+		vcommon.S("mapfs", 6400, 320000, genCase("mapfs"), checkCase),
 		vcommon.S("toctou", 160, 3200, genRace(), checkRace),
 	)
 }
